@@ -274,38 +274,9 @@ class BlackbirdProgram:
 
         kwargs = new_kwargs
 
-        # set values for args and kwargs in operations
-        for op in prog._operations: # pylint: disable=protected-access
-            if 'args' not in op:
-                continue
-
-            for idx, a in enumerate(op['args']):
-                if isinstance(a, sym.Expr):
-                    par = list(a.free_symbols)
-                    func = sym.lambdify(par, a)
-
-                    try:
-                        vals = {str(p): kwargs[str(p)] for p in par}
-                    except KeyError:
-                        raise ValueError("Invalid value for free parameter provided")
-
-                    op['args'][idx] = func(**vals)
-
-            for k, v in op['kwargs'].items():
-                if isinstance(v, sym.Expr):
-                    par = list(v.free_symbols)
-                    func = sym.lambdify(par, v)
-
-                    try:
-                        vals = {str(p): kwargs[str(p)] for p in par}
-                    except KeyError:
-                        raise ValueError("Invalid value for free parameter provided")
-
-                    op['kwargs'][k] = func(**vals)
-
-        # set values for variables and arrays
-        for k, v in prog._var.items(): # pylint: disable=protected-access
-            # it can either be an independent parameter for a variable
+        def _instantiate(v):
+            """Replaces the free parameters in a value (a symbolic expression,
+            a list of values or an array containing symbolic expressions)"""
             if isinstance(v, sym.Expr):
                 par = list(v.free_symbols)
                 func = sym.lambdify(par, v)
@@ -315,25 +286,32 @@ class BlackbirdProgram:
                 except KeyError:
                     raise ValueError("Invalid value for free parameter provided")
 
-                prog._var[k] = func(**vals)
-            # or encapsulated in an array
-            elif isinstance(v, np.ndarray):
+                return func(**vals)
+
+            if isinstance(v, list):
+                return [_instantiate(i) for i in v]
+
+            if isinstance(v, np.ndarray) and v.dtype == object:
                 # look through the array and, if there are any parameters,
                 # replace them with their corresponding values from kwargs
                 populated_array = copy.deepcopy(v)
-                for i, j in np.ndindex(v.shape):
-                    if isinstance(v[i][j], sym.Expr):
-                        par = list(v[i][j].free_symbols)
-                        func = sym.lambdify(par, v[i][j])
+                for idx in np.ndindex(v.shape):
+                    populated_array[idx] = _instantiate(v[idx])
+                return populated_array
 
-                        try:
-                            vals = {str(p): kwargs[str(p)] for p in par}
-                        except KeyError:
-                            raise ValueError("Invalid value for free parameter provided")
+            return v
 
-                        populated_array[i][j] = func(**vals)
+        # set values for args and kwargs in operations
+        for op in prog._operations: # pylint: disable=protected-access
+            if 'args' not in op:
+                continue
 
-                    prog._var[k] = populated_array
+            op['args'] = [_instantiate(a) for a in op['args']]
+            op['kwargs'] = {k: _instantiate(v) for k, v in op['kwargs'].items()}
+
+        # set values for variables and arrays
+        for k, v in prog._var.items(): # pylint: disable=protected-access
+            prog._var[k] = _instantiate(v)
 
         return prog
 
